@@ -239,7 +239,7 @@ theorem deliver_spec (fs : List Frame) (s : St) (f : Frame) (h : FramesIn fs s) 
   unfold deliver
   split
   · exact ⟨h, by simp⟩
-  · exact ⟨h, by intro o ho; simp at ho; subst ho; exact not_res_justified fs _ _ (by intro k r; simp)⟩
+  · exact ⟨h, by intro o ho; simp at ho; rw [ho.2]; exact not_res_justified fs _ _ (by intro k r; simp)⟩
   · split
     · rename_i a ha
       split
@@ -702,7 +702,7 @@ theorem deliver_track (s : St) (f : Frame) : track (holder s) (evs (deliver s f)
   unfold deliver
   split
   · simp [evs, track]
-  · simp [evs, track]
+  · cases s.cb <;> simp [evs, track]
   · split
     · rename_i a ha
       have hh : holder s = some a.r.k := by simp [holder, ha]
